@@ -3,6 +3,7 @@ import DarkluaModel.Shared.Run
 import DarkluaModel.Shared.VisitorSound
 import DarkluaModel.Rules.Witness
 import DarkluaModel.C08.Thm
+import DarkluaModel.C06.Whole
 /-!
 # C06 — the Luau-lowering rules preserve program behaviour: property theorems (local lemmas)
 
@@ -691,14 +692,43 @@ def continue_refines_partial : Prop :=
     C07.continueInLoops b = true → noRepeatB false b = true →
     runProgram ρ n externs (RemoveContinue.apply b) = runProgram ρ n externs b
 
-/-- `remove_types`: erasing annotations, casts and instantiations (closure bodies differ syntactically) -/
+/-- `remove_types` as a whole. Every hook is locally sound (below): the expression hook and the block
+hook are exact, the statement / function hooks yield statements related by the stage-2 congruence
+(closures that differ in annotations only). What keeps the whole-rule theorem a `def … : Prop`: the
+PREFIX hook turns `p<<T>>` (one value) into `p` (possibly several values) — equal where a prefix is
+used (only the first value is), but not an exact step of `Sem.R`, which has no "first value" relation. -/
 def types_refines : Prop :=
   ∀ (b : Block) (N : NumOps) (ρ : ExtOracle N) (n : Nat) (externs : List String), wfB b = true →
     runProgram ρ n externs (RemoveTypes.apply b) = runProgram ρ n externs b
 
-/-- `remove_attribute` -/
-def attribute_refines : Prop :=
-  ∀ (b : Block) (N : NumOps) (ρ : ExtOracle N) (n : Nat) (externs : List String),
-    runProgram ρ n externs (RemoveAttribute.apply b) = runProgram ρ n externs b
+/-- `remove_types`, expression hook: unwrapping casts / instantiations (with parentheses around what may
+return several values) is exact. -/
+theorem remove_types_expr_exact (e : Expr) (σ : State N) :
+    evalE call ρ k env (RemoveTypes.processExpression e) σ = evalE call ρ k env e σ :=
+  types_expr_exact call ρ k env e σ
+
+/-- `remove_types`, block hook: dropping `type` declarations and type functions is exact. -/
+theorem remove_types_block_exact (b : Block) (σ : State N) :
+    execB call ρ k env (RemoveTypes.processBlock b) σ = execB call ρ k env b σ :=
+  types_block_exact call ρ k env b σ
+
+/-- `remove_types`, prefix hook: same first value, same state. -/
+theorem remove_types_prefix_first (e : Expr) (σ : State N) :
+    trunc call ρ k env (RemoveTypes.processPrefix e) σ = trunc call ρ k env e σ :=
+  types_prefix_first call ρ k env e σ
+
+/-- `remove_types`, statement and function hooks: the result is related by the stage-2 congruence
+(equal observable behaviour in every context; the closures created differ in annotations only). -/
+theorem remove_types_stmt_rel (x : Stmt) : R false (.s x) (.s (RemoveTypes.stmtNode x)) := types_stmtNode_rel x
+
+theorem remove_types_node_rel (e : Expr) :
+    R false (.e e) (.e (RemoveTypes.node e)) ∧ R false (.t e) (.t (RemoveTypes.node e)) := types_node_rel e
+
+/-- **`remove_attribute` as a whole** preserves the observable outcome of EVERY program (stage-2 lifting:
+the closures differ in attributes only). -/
+theorem rule_refines_remove_attribute (b : Block) {N : NumOps} (ρ : ExtOracle N) (n : Nat)
+    (externs : List String) :
+    runProgram ρ n externs (RemoveAttribute.apply b) = runProgram ρ n externs b :=
+  remove_attribute_refines_lift b ρ n externs
 
 end DarkluaModel.C06
